@@ -177,7 +177,13 @@ class Builder:
         """Label-dependent value of arbitrary magnitude (li operands, dw/pack values)."""
         self.tags.add('labelval')
         L = self.label()
-        kind = self.i(0, 5)
+        kind = self.i(0, 7)
+        if kind == 6:
+            # a value that GROWS when the label moves down (counts down from the label)
+            return ir.Bin('-', ir.Lit(self.pick([2040, 2047, 2050, 2060, 2070, 2100, 4096, 40])), ir.LRef(L))
+        if kind == 7:
+            # a value that is small while the label is still at its pessimistic place and far negative afterwards
+            return ir.Pos(L, ir.Lit(-self.pick([2048, 4096, 8000, 8192, 100, 2060])))
         if kind == 0:
             return ir.LRef(L)
         if kind == 1:
@@ -483,8 +489,10 @@ class Builder:
         return ir.Short('dw', ir.Lit(self.i(0, (1 << 32) - 1)))
 
     def align_item(self):
-        if self.chance(0.7):
+        if self.chance(0.7 - self.p.get('p_big_align', 0.0)):
             return ir.Align(self.pick([2, 4, 4, 8, 16]))
+        if self.chance(self.p.get('p_big_align', 0.0) * 2):
+            return ir.Align(self.pick([1024, 2048, 4096, 4096, 8192]))
         return ir.Align(self.pick([1, 2, 3, 4, 5, 6, 7, 8, 12, 16, 32, 64, 100, 128, 255, 256, 1000, 4096])
                         if self.chance(0.6) else self.i(1, 64))
 
@@ -692,8 +700,24 @@ class Builder:
         for off, (pos, c) in enumerate(zip(pos_list, self.consts)):
             body.insert(pos + off, [c])
         self.items = [it for unit in body for it in unit]
+        self.tune_countdowns()
         self.repair_ranges()
         return Program(self.items, sorted(self.tags), self.expected_ok)
+
+    def tune_countdowns(self):
+        """li rd, C - L: choose C so that the value sits just inside the 12-bit range while L is still at its pessimistic
+        offset and leaves it as soon as L moves down by a few bytes (a size decision taken too early then goes wrong)."""
+        o, labpos = 0, {}
+        for it in self.items:
+            if it.kind == 'label':
+                labpos[it.name] = o
+            o += pess_size(it)
+        for it in self.items:
+            if it.kind == 'pseudo' and it.name == 'li' and isinstance(it.ops[1], ir.Bin) and it.ops[1].op == '-' \
+                    and isinstance(it.ops[1].a, ir.Lit) and isinstance(it.ops[1].b, ir.LRef) and self.chance(0.7):
+                L = it.ops[1].b.name
+                it.ops[1] = ir.Bin('-', ir.Lit(2047 + labpos.get(L, 0) - self.pick([0, 0, 2, 4, 6, 8, 12])), ir.LRef(L))
+                self.tags.add('li_countdown_at_range_edge')
 
     def repair_ranges(self):
         """Keep non-crafted transfers legal by construction: retarget a transfer whose pessimistic distance
